@@ -10,6 +10,7 @@ def run(ctx, model):
     kernels.run_boolwin(ctx, model, "C01")
     kernels.run_msgs(ctx, model, "C01")
     kernels.run_readreply(ctx, model, "C01")
+    run_near_limit(ctx, model)
     rng = ctx.rng
     n = ctx.budget(60, 700)
     for i in range(n):
@@ -58,6 +59,57 @@ def run(ctx, model):
         if i < 3:
             ctx.sample({"tags": case["tags"][:6], "results": [lx.tag_summary(t) for t in res[:6]]})
         sess.close()
+
+
+def run_near_limit(ctx, model):
+    """structure and elementary arrays whose read reply lands within a few bytes of the connection size, alone and
+    inside a multi-tag call: the value must come back whole whichever way the driver decides to move it"""
+    from props.c04 import sized_project
+    rng = ctx.rng
+    for C in (500, 4000):
+        for elem in (None, 4, 8, 12):
+            step = elem or 1
+            lo = (C - 24) // step * step
+            sizes = [x for x in range(lo, C + 8 + step, step)]
+            if ctx.tier == "quick" and elem is None:
+                sizes = sizes[::3]
+            for size in sizes:
+                for pos in (("single", "last") if ctx.tier == "quick" else ("single", "first", "last")):
+                    name = "S" + "y" * rng.choice([1, 6, 19])
+                    p = sized_project(rng, [(size, name), (4 * step, "o0"), (10 * step, "o1")], struct_elem=elem,
+                                      reads=rng.choice([[], [], [1], [37]]))
+                    sess = lx.Session(model, p, conn_large=(C == 4000))
+                    if sess.open_error is not None:
+                        ctx.count("open-failed")
+                        sess.close()
+                        continue
+                    n_el = size // step
+                    big = "%s{%d}" % (name, n_el) if n_el > 1 else name
+                    tags = {"single": [big], "first": [big, "o0{4}", "o1{4}"], "last": ["o0{4}", "o1{4}", big]}[pos]
+                    case = {"connection_size": C, "tag_bytes": size, "element_bytes": step, "position": pos, "tags": tags,
+                            "element": "SINT" if elem is None else "%d-byte struct" % elem}
+                    try:
+                        res = core.with_budget(120, sess.d.read, *tags)
+                    except BaseException as e:  # noqa
+                        if isinstance(e, (KeyboardInterrupt, SystemExit)):
+                            raise
+                        ctx.violation("read-raises:" + core.exn_class(e), case, repr(e)[:300])
+                        sess.close()
+                        continue
+                    res = res if isinstance(res, list) else [res]
+                    ctx.case("near-limit-reads", ("nl", C, size, elem, pos))
+                    ctx.count("near-limit/%s" % case["element"])
+                    for t, got in zip(tags, res):
+                        sym = lx._find_symbol(p, t.split("{")[0])
+                        cnt = int(t.split("{")[1][:-1]) if "{" in t else 1
+                        want = lg.ref_elements(sym.kind, sym.typ, bytes(sym.mem), 0, cnt)
+                        want = want if "{" in t else want[0]
+                        if not got:
+                            ctx.violation("read-fails-near-connection-size:" + case["element"].split("-")[0], dict(case, tag=t),
+                                          "expected the value, got falsy %s" % lx.tag_summary(got))
+                        elif not oracle_eq(want, got.value):
+                            ctx.violation("read-wrong-value-near-connection-size", dict(case, tag=t), "value differs")
+                    sess.close()
 
 
 def lx_shape(tag):
